@@ -20,7 +20,8 @@
 From PVGen Require Export Lit.
 
 Inductive pclass := PCPathConvert | PCNestedMap | PCNoArm | PCConstContainer | PCDangling
-                     | PCFloatSigns.   (* a double constant written `-+x` while the generator parses with f64::from_str *)
+                     | PCFloatSigns    (* a double constant written `-+x` while the generator parses with f64::from_str *)
+                     | PCFloatExp.     (* an exponent with several `-` signs or 0x digits while the generator parses with f64::from_str *)
 
 Definition is_int_cty (ty : cty) : bool := match ty with CI8 | CI16 | CI32 | CI64 => true | _ => false end.
 Definition is_str_cty (ty : cty) : bool := match ty with CStr => true | _ => false end.
@@ -59,7 +60,8 @@ Section Class.
         end
     | _ =>
         match (match l with
-               | LFloat s => if double_sign_run_ok || bytes_eqb s (sign_norm s) then None else Some PCFloatSigns
+               | LFloat s => if float_exp_plain s && float_sign_plain s then None
+                             else Some (if float_exp_plain s then PCFloatSigns else PCFloatExp)
                | _ => None
                end) with
         | Some c => Some c
